@@ -21,7 +21,7 @@ Theorem C12_serde_limits_sane :
 Proof. exact serde_limits_sane. Qed.
 Print Assumptions C12_serde_limits_sane.
 
-(* the wire field names (and omitempty flags) of the 29 DTO structs behind the typed schemas,
+(* the wire field names (and omitempty flags) of the 34 DTO structs behind the typed schemas,
    regenerated from the struct declarations, are exactly the fields of the model's schemas *)
 Theorem C12_dto_fields_agree :
   forallb (fun p : schema * list (bytes * bool) => same_fields (struct_fields (fst p)) (snd p)) dto_table = true.
@@ -242,6 +242,12 @@ Theorem C12_cnf_valid_spec : forall x,
   seteqN (keys_of (fld k_shareholders d)) (dedupN (List.concat sets)) = true.
 Proof. exact cnf_valid_spec. Qed.
 Print Assumptions C12_cnf_valid_spec.
+
+Theorem C12_hierarchical_valid_spec : forall x,
+  valid THierarchical x = true ->
+  let ls := arr_of (fld k_levels (untag x)) in ls <> [] /\ hier_ok 0 [] ls.
+Proof. exact hierarchical_valid_spec. Qed.
+Print Assumptions C12_hierarchical_valid_spec.
 
 (* ---- non-vacuity: concrete instances of the hypotheses ------------------------------------- *)
 
